@@ -59,11 +59,12 @@ class C05(Spec):
             "separators in their values, 0-3 cookies, bodies of 0, 1, 511-513, 1023-1025, 2047-2049, 4095-4097 bytes, i.e. "
             "around every doubling of the 512-byte buffer) with the maximum response size set to rendered size -1, +0, +1 "
             "and far values, captured by a raw socket; T: streamed responses with 0-5 chunks of sizes 1, 15, 16, 255, 256, "
-            "4095, 4096 and random. Compared with the model's rendering (header lines sorted) and read back by an "
+            "4095, 4096 and random; U: streams built with every way of putting data into a ResponseStream (write incl. 0 bytes, << of strings, "
+            "C strings, partly filled char arrays, chars, bools, signed and unsigned integers around every digit-count boundary, flushes, a small buffer). Compared with the model's rendering (header lines sorted) and read back by an "
             "independent decoder: one status line with the code, each header and cookie once, Content-Length = body "
             "length / chunks decode to the data written and end with a zero chunk, reported size = bytes emitted, "
             "over-cap responses rejected with nothing emitted. non-trivial = case with a body; distinct by case line")
-    assumptions = ["the handler's promise outcome is observed for at most 2 s", "stream.write(p, 0) and stream << integer are not exercised (see DESIGN.md C05)"]
+    assumptions = ["the handler's promise outcome is observed for at most 2 s", "a streamed chunk that does not fit the response buffer raises an error in the handler (not exercised: what the peer then sees is an unfinished message)"]
 
     def gen(self, rng, tier):
         cases = []
@@ -83,6 +84,34 @@ class C05(Spec):
                     continue
                 cases.append("P %d %d %s %s %s %s" % (code, cap, pv.hexs(srv) if srv else "-", pv.hexs(loc) if loc else "-",
                                                       ",".join("%s=%s" % (pv.hexs(k), pv.hexs(v)) for k, v in cookies) or "-", pv.hexs(body)))
+        # streamed responses built with every way of putting data into a ResponseStream
+        ucases = ["U 200 4194304 w6162,e,w6364", "U 200 4194304 i10,i255,i100,i0,i-7,i2147483647,i-2147483648",
+                  "U 200 4194304 a616263,l78797a,l6c6974,c41,b1,b0,u18446744073709551615,u0,u1000",
+                  "U 200 4194304 w6162,f,w6364,f,f,e,f", "U 404 4194304 e,e,f,e", "U 200 4194304 l,l,a",
+                  # a chunk that does not fit the response buffer: the handler must get an error, nothing cut short may go out
+                  "U 200 600 w%s,f,w%s,f" % ("61" * 100, "62" * 1000), "U 200 600 w%s,f" % ("63" * 700)]
+        def item():
+            k = rng.choice("wwwleliiucbaf")
+            data = bytes(rng.choice(b"abcxyz019 ") for _ in range(rng.choice([0, 1, 2, 9, 10, 15, 16, 17, 255, 256, 1000])))
+            if k in "wl":
+                return k + pv.hexs(data).replace("-", "")
+            if k == "a":
+                return "a" + pv.hexs(data[:rng.randint(0, 15)]).replace("-", "")
+            if k == "c":
+                return "c" + pv.hexs(bytes([rng.choice(b"aZ0 ~")]))
+            if k == "i":
+                return "i%d" % rng.choice([0, 1, 9, 10, 11, 99, 100, 101, 255, 256, 1000, 1001, 70007, -1, -10, -100, 2147483647, -2147483648, rng.randint(-10 ** 9, 10 ** 9)])
+            if k == "u":
+                return "u%d" % rng.choice([0, 10, 100, 4294967296, 10 ** 19, 18446744073709551615, rng.randint(0, 2 ** 64 - 1)])
+            if k == "b":
+                return "b" + rng.choice("01")
+            return k
+        for _ in range(n // 3):
+            ucases.append("U %d 4194304 %s" % (rng.choice(CODES), ",".join(item() for _ in range(rng.randint(1, 8)))))
+        # a small response buffer: chunks that fit between flushes
+        for _ in range(max(3, n // 20)):
+            ucases.append("U 200 600 " + ",".join("w" + pv.hexs(bytes(rng.choice(b"ab") for _ in range(rng.randint(50, 200)))) + ",f" for _ in range(rng.randint(2, 6))))
+        cases.extend(ucases)
         for _ in range(n // 2):
             chunks = [bytes(rng.choice(b"abc\r\n0") for _ in range(rng.choice([1, 2, 15, 16, 17, 255, 256, 257, 4095, 4096, rng.randint(1, 3000)]))) for _ in range(rng.randint(0, 5))]
             cases.append("T %d %s" % (rng.choice(CODES), ",".join(pv.hexs(c) for c in chunks) or "-"))
@@ -129,6 +158,42 @@ class C05(Spec):
                 return "header set differs: %s vs %s" % (sorted(names), sorted(want))
             if int(o[3].split("=")[1]) != len(raw):
                 return "reported response size %s but %d bytes emitted" % (o[3], len(raw))
+        elif t[0] == "U":
+            # the data written, as text
+            pieces = []
+            for it in (t[3].split(",") if len(t) > 3 else []):
+                if not it:
+                    continue
+                k, arg = it[0], it[1:]
+                if k in "wslca":
+                    pieces.append(bytes.fromhex(arg))
+                elif k in "iub":
+                    pieces.append(arg.encode())
+            cap = int(t[2])
+            oversize = any(len(p) + 20 > cap for p in pieces)
+            threw = len(o) > 1 and o[1] == "threw"
+            if threw and not oversize:
+                return "a stream whose chunks fit the buffer between flushes raised an error in the handler"
+            if oversize:
+                if not threw:
+                    return "a chunk larger than the response buffer (%d bytes) was accepted without an error" % cap
+                raw = pv.unhex(o[2]) if len(o) > 2 and o[2] != "-" else b""
+                # what went out before the error must be whole chunks only
+                he = raw.find(b"\r\n\r\n")
+                rest = raw[he + 4:] if he >= 0 else b""
+                while rest:
+                    e = rest.find(b"\r\n")
+                    n = int(rest[:e], 16) if e > 0 else -1
+                    if n <= 0 or rest[e + 2 + n:e + 4 + n] != b"\r\n":
+                        return "after the error a chunk cut short (or a terminator) is on the wire: %r" % rest[:60]
+                    rest = rest[e + 4 + n:]
+                return None
+            raw = pv.unhex(o[1]) if len(o) > 1 and o[1] != "-" else b""
+            d = decode(raw)
+            if d is None:
+                return "streamed response is not well-formed chunked coding (a chunk's size line does not match its data, a premature zero-size chunk, or stray bytes after the end): %r" % raw[-80:]
+            if d[0] != int(t[1]) or d[2] != b"".join(pieces):
+                return "decoded chunks differ from the data written: %r vs %r" % (d[2][:60], b"".join(pieces)[:60])
         else:
             chunks = [] if t[2] == "-" else [pv.unhex(x) for x in t[2].split(",")]
             d = decode(pv.unhex(o[1])) if len(o) > 1 and o[1] != "-" else None
